@@ -215,7 +215,7 @@ theorem jd_macros (ms) (h : CtxNoDef c) : CtxNoDef { c with macros := ms } := h
 theorem jd_chain (ch l ib) (h : CtxNoDef c) (hc : ChainOk ch) :
     CtxNoDef { c with chain := ch, level := l, inBlock := ib } := ⟨h.1, hc⟩
 theorem jd_blockDefs (bd) (h : CtxNoDef c) (hb : BlocksOk bd) : CtxNoDef { c with blockDefs := bd } := ⟨hb, h.2⟩
-theorem jd_extends (v s i) (h : CtxNoDef c) : CtxNoDef { freshCtx v s i with blockDefs := c.blockDefs } :=
+theorem jd_extends (v s i) (h : CtxNoDef c) : CtxNoDef { freshCtx v s i with blockDefs := c.blockDefs, parents := c.parents } :=
   ⟨h.1, chainOk_nil⟩
 theorem jd_fresh (v s i) : CtxNoDef (freshCtx v s i) := ⟨blocksOk_nil, chainOk_nil⟩
 theorem jd_plain (v ms ps s i) :
